@@ -341,6 +341,12 @@ func runScenario(ctx context.Context, w *rec.Writer, r *rec.Rand, s *scen.Scenar
 				panic(err)
 			}
 		} else {
+			// stored AND contextual: every read returns the tuple twice, and the number of times an
+			// entry is received matters to the code (excludedUsers are counted per received entry),
+			// so the models get the tuple twice as well
+			for _, t := range rn.ctxT {
+				tvs = append(tvs, in.Tuple(t, env.CEval(ctx, t)))
+			}
 			w.Stat("scenarios_with_duplicated_contextual_tuples", 1)
 		}
 		w.Stat("scenarios_with_contextual_tuples", 1)
